@@ -52,7 +52,12 @@ def manual_instances(hyps, goal, sks):
         if not (z3.is_quantifier(h) and h.is_forall()):
             continue
         n = h.num_vars()
-        if n > 2 or any(h.var_sort(i) != z3.IntSort() for i in range(n)):
+        if any(h.var_sort(i) != z3.IntSort() for i in range(n)):
+            continue
+        if n > 2:
+            # cell-wise facts about the same index tuple as the goal: instantiate position by position
+            if n == len(sks):
+                out.append(z3.substitute_vars(h.body(), *reversed(list(sks))))
             continue
         for tup in itertools.product(cands, repeat=n):
             out.append(z3.substitute_vars(h.body(), *reversed(tup)))
@@ -216,6 +221,31 @@ def _mentions_decl(terms, name):
     return False
 
 
+def sum_succ_instances(terms):
+    """ground instances of the (Lean-proved) lemma sum_succ for every  u_sum(F, lo, x+1)  occurring outside binders:
+    lo <= x  ->  u_sum(F, lo, x+1) == u_sum(F, lo, x) + F[x]"""
+    out, seen, stack = [], set(), list(terms)
+    while stack:
+        t = stack.pop()
+        if t.get_id() in seen or z3.is_quantifier(t) or not z3.is_app(t):
+            continue
+        seen.add(t.get_id())
+        if t.decl().name() == "u_sum" and t.num_args() == 3:
+            hi = t.arg(2)
+            x = None
+            if z3.is_add(hi) and hi.num_args() == 2:
+                a, b = hi.arg(0), hi.arg(1)
+                if z3.is_int_value(b) and b.as_long() == 1:
+                    x = a
+                elif z3.is_int_value(a) and a.as_long() == 1:
+                    x = b
+            if x is not None:
+                F, lo = t.arg(0), t.arg(1)
+                out.append(z3.Implies(lo <= x, t == t.decl()(F, lo, x) + z3.Select(F, x)))
+        stack.extend(t.children())
+    return out
+
+
 def _solve(idx):
     ob, extra_axioms, leaves = _OBS[idx]
     t0 = time.time()
@@ -226,10 +256,12 @@ def _solve(idx):
     plain_axioms, sum_axioms = extra_axioms if isinstance(extra_axioms, tuple) else (extra_axioms, [])
     for a in plain_axioms:
         s.add(a)
+    goal, sks = skolemize_goal(ob.goal)
     if sum_axioms and _mentions_decl(list(ob.hyps) + [ob.goal], "u_sum"):
         for a in sum_axioms:
             s.add(a)
-    goal, sks = skolemize_goal(ob.goal)
+        for a in sum_succ_instances([goal]):
+            s.add(a)
     insts = manual_instances(ob.hyps, goal, sks)
     for inst in insts:
         s.add(inst)
